@@ -603,3 +603,74 @@ func (c *Ctx) registryProbes() []probe {
 	})
 	return c.probes
 }
+
+// ---- OWN-8: values handed out by Persistence.Load are read-only ----
+
+func init() {
+	register("OWN-8", []string{"OWN-8"}, func(c *Ctx, _ map[string]bool) { c.own8() })
+}
+
+func (c *Ctx) own8() {
+	n := 0
+	c.eachInstr(func(fn *ssa.Function, ins ssa.Instruction) {
+		call, ok := ins.(*ssa.Call)
+		if !ok || !call.Call.IsInvoke() || call.Call.Method.Name() != "Load" || recvTypeName(call.Call.Method) != "Persistence" {
+			return
+		}
+		n++
+		// the loaded slice and everything derived from it (phis, re-slices)
+		derived := map[ssa.Value]bool{}
+		var work []ssa.Value
+		for _, r := range *call.Referrers() {
+			if ex, ok := r.(*ssa.Extract); ok && ex.Index == 0 {
+				derived[ex] = true
+				work = append(work, ex)
+			}
+		}
+		name := load.FuncName(load.TopLevel(fn))
+		key := "OWN-8|" + name + "|Load-result-not-modified"
+		bad := false
+		for len(work) > 0 {
+			v := work[0]
+			work = work[1:]
+			refs := v.Referrers()
+			if refs == nil {
+				continue
+			}
+			for _, r := range *refs {
+				switch x := r.(type) {
+				case *ssa.Phi:
+					if !derived[x] {
+						derived[x] = true
+						work = append(work, x)
+					}
+				case *ssa.Slice:
+					if x.X == v && !derived[x] {
+						derived[x] = true
+						work = append(work, x)
+					}
+				case *ssa.IndexAddr:
+					if x.X != v {
+						continue
+					}
+					for _, rr := range *x.Referrers() {
+						if st, ok := rr.(*ssa.Store); ok && st.Addr == x {
+							bad = true
+							c.S.Bad("OWN-8", key, c.P.Pos(st.Pos()), name, "the slice returned by Persistence.Load is modified in place ("+Expr(st.Val)+"): a Persistence that hands out its own memory gets its record altered, and the integrity check refuses the record from then on", nil)
+						}
+					}
+				case *ssa.Call:
+					// append(loaded, …) may write into spare capacity; copy(loaded, …) writes
+					if b, ok := x.Call.Value.(*ssa.Builtin); ok && len(x.Call.Args) > 0 && x.Call.Args[0] == v && (b.Name() == "append" || b.Name() == "copy") {
+						bad = true
+						c.S.Bad("OWN-8", key, c.P.Pos(x.Pos()), name, b.Name()+" with the slice returned by Persistence.Load as destination", nil)
+					}
+				}
+			}
+		}
+		if !bad {
+			c.S.OK("OWN-8", key, c.P.Pos(call.Pos()), name, "no store, append or copy targets the loaded slice or a re-slice of it", true)
+		}
+	})
+	c.S.Floor("OWN-8", "Persistence.Load call sites", n, 5)
+}
